@@ -2,6 +2,7 @@ package rules
 
 import (
 	"fmt"
+	"go/constant"
 	"go/token"
 	"go/types"
 	"sort"
@@ -166,6 +167,8 @@ func C07(c *Ctx) {
 	c.R.Rule("C07-R8", "E3", "Compile establishes what processing assumes: a compiled spec has no null node and no null branch", 2)
 	c.R.Rule("C07-R9", "E3", "the matcher's recursion consumes the message: a bound variable string is not expanded again", 1)
 	c07Termination(c)
+	c.R.Rule("C07-R10", "E3+E6", "loading any document yields a specification or an error", 3)
+	c07Loader(c)
 
 	coreFns := c.P.FuncsIn("core")
 	fns := c.processingClosure()
@@ -281,6 +284,25 @@ func C07(c *Ctx) {
 	}
 	if nctl == 0 {
 		c.R.Break("C07-R1: no read of CrewConf.Ctl found in package sio")
+	}
+	// crew operations arrive as messages: a JSON null among the machines to update decodes to a nil pointer
+	nop := 0
+	for _, f := range c.P.FuncsIn("sio") {
+		ssau.Instrs(f, func(in ssa.Instruction) {
+			if x, ok := in.(*ssa.Extract); ok && x.Index == 2 {
+				if nx, ok := x.Tuple.(*ssa.Next); ok {
+					if rg, ok := nx.Iter.(*ssa.Range); ok {
+						if _, is := isFieldLoad(rg.X, "sio", "CrewOp", "Update"); is {
+							nop++
+							srcs = append(srcs, nilc.Source{V: x, Why: "a crew operation may name a machine with a null description", Label: fmt.Sprintf("CrewOp.Update element in %s #%d", f.Name(), nop)})
+						}
+					}
+				}
+			}
+		})
+	}
+	if nop == 0 {
+		c.R.Break("C07-R1: no range over CrewOp.Update found in package sio")
 	}
 	res := nilc.Check(nilc.Config{Prog: c.P, Engine: map[string]bool{"core": true, "match": true, "sio": true}, PairRule: true}, srcs)
 	c.reportNil("C07-R1", res)
@@ -1529,4 +1551,155 @@ func c07Termination(c *Ctx) {
 	if n == 0 {
 		c.R.Break("C07-R9: the matcher never uses a bound value as a pattern")
 	}
+}
+
+// c07Loader: C07-R10.  sio.ResolveSpecSource is the loader of specification documents by reference.  In its closure
+// no error is dropped (a document that could not be read is not decoded), and a byte of the document is only
+// looked at under a test of its length (an empty document is an error, not a crash).
+func c07Loader(c *Ctx) {
+	rs := c.fn("sio", "", "ResolveSpecSource")
+	if rs == nil {
+		return
+	}
+	errT := types.Universe.Lookup("error").Type()
+	var fns []*ssa.Function
+	for _, f := range pkgClosure(rs) {
+		if prog.PkgOf(f) == "sio" {
+			fns = append(fns, f)
+			c.R.Fn(fname(f))
+		}
+	}
+	n := map[string]int{}
+	nIdx := 0
+	for _, f := range fns {
+		ssau.Instrs(f, func(in ssa.Instruction) {
+			switch x := in.(type) {
+			case *ssa.Call:
+				sig := x.Common().Signature()
+				k := sig.Results().Len()
+				if k == 0 || !types.Identical(sig.Results().At(k-1).Type(), errT) {
+					return
+				}
+				name := ssau.CalleeName(x)
+				if name == "" {
+					name = "dynamic call"
+				}
+				base := fname(blameCaller(f, fns)) + ":" + name
+				n[base]++
+				key := fmt.Sprintf("%s#%d error used", base, n[base])
+				var ev ssa.Value = x
+				if k > 1 {
+					ev = callResults(x)[k-1]
+				}
+				used := false
+				if ev != nil {
+					for _, r := range ssau.Referrers(ev) {
+						if _, isD := r.(*ssa.DebugRef); !isD {
+							used = true
+						}
+					}
+				}
+				switch {
+				case used:
+					c.R.Discharge("C07-R10", key, c.pos(x), "error result is used")
+				case strings.HasSuffix(name, ".Close") || strings.HasPrefix(name, "fmt.Fprint") || strings.HasPrefix(name, "fmt.Print"):
+					c.R.Discharge("C07-R10", key, c.pos(x), "close / output errors are not part of loading")
+				default:
+					c.R.Violate("C07-R10", key, c.pos(x), "the error returned by "+name+" is dropped (overwritten or never looked at): a document that could not be read is decoded all the same")
+				}
+			case *ssa.IndexAddr, *ssa.Index:
+				var base, idx ssa.Value
+				if ia, ok := x.(*ssa.IndexAddr); ok {
+					base, idx = ia.X, ia.Index
+				} else {
+					ix := x.(*ssa.Index)
+					base, idx = ix.X, ix.Index
+				}
+				bt, isSl := base.Type().Underlying().(*types.Slice)
+				if !isSl {
+					return
+				}
+				if b, isB := bt.Elem().Underlying().(*types.Basic); !isB || b.Kind() != types.Uint8 {
+					return
+				}
+				ci, isConst := idx.(*ssa.Const)
+				if !isConst {
+					return
+				}
+				k, _ := constant.Int64Val(ci.Value)
+				nIdx++
+				key := fmt.Sprintf("%s: byte %d of the document read under a length test #%d", fname(blameCaller(f, fns)), k, nIdx)
+				ok := false
+				for _, ft := range flow.FactsAt(in.Block()) {
+					if lenBound(ft, base) > k {
+						ok = true
+					}
+				}
+				c.R.Check(ok, "C07-R10", key, c.pos(in), "dominated by a test that the document is longer than the index", "a byte of the document is read without a test of its length: an empty document (or one that could not be read) crashes the loader instead of yielding an error")
+			}
+		})
+	}
+}
+
+// lenBound: the least length of slice v that fact ft guarantees (0 if it says nothing about len(v)).
+func lenBound(ft flow.Fact, v ssa.Value) int64 {
+	bo, ok := ft.Cond.(*ssa.BinOp)
+	if !ok {
+		return 0
+	}
+	isLen := func(x ssa.Value) bool {
+		cl, ok := x.(*ssa.Call)
+		if !ok {
+			return false
+		}
+		b, isB := cl.Common().Value.(*ssa.Builtin)
+		if !isB || b.Name() != "len" {
+			return false
+		}
+		a := cl.Common().Args[0]
+		if a == v {
+			return true
+		}
+		// the same variable read twice
+		ca, cb := cellOf(a), cellOf(v)
+		return ca != nil && ca == cb
+	}
+	cst := func(x ssa.Value) (int64, bool) {
+		c, ok := x.(*ssa.Const)
+		if !ok || c.Value == nil {
+			return 0, false
+		}
+		return constant.Int64Val(c.Value)
+	}
+	op, X, Y := bo.Op, bo.X, bo.Y
+	if !isLen(X) {
+		// put len on the left
+		flip := map[token.Token]token.Token{token.EQL: token.EQL, token.NEQ: token.NEQ, token.LSS: token.GTR, token.GTR: token.LSS, token.LEQ: token.GEQ, token.GEQ: token.LEQ}
+		if !isLen(Y) {
+			return 0
+		}
+		X, Y = Y, X
+		op = flip[op]
+	}
+	k, ok := cst(Y)
+	if !ok {
+		return 0
+	}
+	if !ft.True {
+		neg := map[token.Token]token.Token{token.EQL: token.NEQ, token.NEQ: token.EQL, token.LSS: token.GEQ, token.GEQ: token.LSS, token.GTR: token.LEQ, token.LEQ: token.GTR}
+		op = neg[op]
+	}
+	switch op {
+	case token.GTR:
+		return k + 1
+	case token.GEQ:
+		return k
+	case token.NEQ:
+		if k == 0 {
+			return 1
+		}
+	case token.EQL:
+		return k
+	}
+	return 0
 }
